@@ -231,7 +231,6 @@ theorem impl_refines_spec_env (e : Expr) : ∀ (o : Opts) (env : Spec.Env),
     cases hv : getValue o d sel.path with
     | error => simp only [evaluate, hv]
     | unmodelled => simp only [evaluate, hv]
-    | panic => simp only [evaluate, hv]
     | absent => simp only [evaluate, hv]
     | present v =>
       simp only []
